@@ -22,7 +22,8 @@ RULE = ("cases: (class ∈ {independent, correlated, model list}, input dim 1–
         "(add without update), forget (clear+update), swap (clear, then as many other samples), eqcount_* (after a "
         "clear every objective is re-filled with exactly its previous count: other inputs / same inputs other values "
         "/ equal count for some objectives only / one sample replaced / twice; helpers with as many initial samples "
-        "as training samples), grow (variance monotone), empty, random, big "
+        "as training samples), requery (getters queried before and after the hyper-parameters change by a train() "
+        "with patched fit or by setting them, predictions under the current kernel; also on helper models), grow (variance monotone), empty, random, big "
         "(25–50 samples), single test point, perm (same multiset, other order/batching), local (model list: "
         "extra observations of one objective); non-trivial = at least one prediction compared against a "
         "posterior with ≥ 1 conditioned sample, or a helper call; distinct by the whole case")
@@ -184,16 +185,52 @@ def _eqcount_case(rng, tier, cls=None, variant=None):
     return case
 
 
+def _requery_case(rng, tier, cls=None):
+    """getters queried repeatedly with state changes in between: update → query → other hyper-parameters (a real
+    train() with the patched fit `[7, i]`, or set on the kernel modules `[6, i]` followed by update) → query →
+    add/update → query …; `[5]` = query get_lengthscale_and_var / get_kernel_type / evaluate_kernel.  Every
+    prediction is compared with the exact posterior under the kernel current at that moment."""
+    cls = cls or rng.choice(["indep", "corr", "mlist"])
+    d = rng.choice([1, 2, 2, 3])
+    m = rng.choice([2, 2, 3])
+    n = rng.randint(2, 8)
+    T = rng.choice([1, 2, 3])
+    P = _points(rng, d, n, rng.choice([3, 4])) + _points(rng, d, T, 5)
+    test = list(range(n, n + T))
+    samples = [([s % n, _val(rng), rng.randrange(m)] if cls == "mlist" else [s % n] + [_val(rng) for _ in range(m)])
+               for s in range(n)]
+    ids = list(range(n))
+    case = {"kind": "direct", "cls": cls, "d": d, "m": m, "noise": _noise(rng, cls, m), "hyp": _hyp(rng, cls, d, m),
+            "hyps": [_hyp(rng, cls, d, m) for _ in range(3)], "P": P, "samples": samples, "shape": "requery",
+            "xcol": rng.random() < 0.3, "mono": False}
+    A = lambda sub: _add_ops(rng, cls, samples, sub)  # noqa: E731
+    pred = [3] + test
+    change = lambda i: ([[7, i]] if rng.random() < 0.5 else [[6, i], [2]])  # noqa: E731
+    k = rng.randint(0, n)
+    ops = A(ids[:k]) + [[2], [5]] + ([pred] if rng.random() < 0.7 else []) + change(0) + [[5], pred]
+    ops += A(ids[k:]) + [[2], [5], pred]
+    if rng.random() < 0.6:
+        ops += change(1) + [[5], pred]
+    if rng.random() < 0.4:
+        ops += [[1], [2], [5]] + change(2) + [[5], pred]
+    case["ops"] = ops
+    return case
+
+
 def _direct_case(rng, tier, shape=None, cls=None):
+    if shape == "requery":
+        return _requery_case(rng, tier, cls=cls)
     if shape is not None and shape.startswith("eqcount"):
         return _eqcount_case(rng, tier, cls=cls, variant=shape.split("_", 1)[1] if "_" in shape else None)
     cls = cls or rng.choice(["indep", "indep", "corr", "corr", "mlist", "mlist"])
     d = rng.choice([1, 2, 2, 3])
     m = rng.choice([2, 2, 3])
     shape = shape or rng.choice(["basic", "stale", "forget", "grow", "empty", "random", "big", "single", "perm",
-                                 "local", "repeat", "swap", "eqcount", "eqcount"])
+                                 "local", "repeat", "swap", "eqcount", "eqcount", "requery"])
     if shape == "eqcount":
         return _eqcount_case(rng, tier, cls=cls)
+    if shape == "requery":
+        return _requery_case(rng, tier, cls=cls)
     if shape == "local" and cls != "mlist":
         shape = "perm"
     lat = rng.choice([2, 3, 4])
@@ -312,7 +349,8 @@ def _helper_case(rng, tier, helper=None, k=None, eqcount=False):
             k = n
     return {"kind": "helper", "helper": helper, "cls": cls, "d": d, "m": m, "noise": _noise(rng, cls, m),
             "hyp": _hyp(rng, cls, d, m), "X": X, "Y": Y, "test": _points(rng, d, T, 5), "k": k,
-            "np_seed": np_seed, "shape": shape}
+            "np_seed": np_seed, "shape": shape, "hyp2": _hyp(rng, cls, d, m),
+            "rechange": rng.choice(["train", "train", "set"])}
 
 
 def gen(ctx):
@@ -325,6 +363,8 @@ def gen(ctx):
         structured.append(("d", cls, "local" if cls == "mlist" else "perm"))
         for variant in ["newpts", "samepts", "mixed", "replace1", "twice"]:
             structured.append(("d", cls, "eqcount_" + variant))
+        structured.append(("d", cls, "requery"))
+        structured.append(("d", cls, "requery"))
     for h in ["mo", "mo", "mlist"]:
         for k in [0, 3]:
             structured.append(("h", h, k))
@@ -408,15 +448,21 @@ def _with_xcol(X, xcol):
 class _Run:
     """one real model driven through a history"""
 
-    def __init__(self, case):
+    def __init__(self, case, ctx=None):
         vg = _vg()
         cls, d, m = case["cls"], case["d"], case["m"]
-        self.case, self.cls, self.d, self.m = case, cls, d, m
+        self.case, self.cls, self.d, self.m, self.ctx = case, cls, d, m, ctx
         noise = case["noise"]
         nz = np.asarray(noise, dtype=float) if isinstance(noise, list) else float(noise)
         self.model = getattr(vg, CLASSES[cls])(d, m, nz)
         self.hyp_set = False
         self.preds = []
+        self.pred_phase = []     # kernel phase of every predict op
+        self.phases = []         # (tables, consts) after every change of the hyper-parameters
+        self.reports = []        # earlier answers of get_lengthscale_and_var
+
+    def _new_phase(self, P):
+        self.phases.append((_tables(self.model, self.cls, P, self.m), _consts(self.model, self.cls, self.m)))
 
     def apply(self, op, P, samples, xcol):
         cls, d, m = self.cls, self.d, self.m
@@ -437,13 +483,38 @@ class _Run:
             if not self.hyp_set:
                 _set_hyp_gp(self.model.model, cls, self.case["hyp"], d, m)
                 self.hyp_set = True
+                self._new_phase(P)
         elif op[0] == 3:
             Xt = _with_xcol([P[p] for p in op[1:]], xcol and cls != "mlist")
+            self.pred_phase.append(len(self.phases) - 1)
             try:
                 mu, var = self.model.predict(Xt)
                 self.preds.append(("ok", np.asarray(mu), np.asarray(var)))
             except Exception as e:  # noqa: BLE001
                 self.preds.append(("exc", e, None))
+        elif op[0] == 5:
+            # query every getter; each answer must describe the kernel as it is NOW
+            _check_getters(self.ctx, self.case, self.model, CLASSES[cls], P, self.reports)
+        elif op[0] == 6:
+            # the user sets other hyper-parameters on the kernel modules (an update() follows in the history:
+            # gpytorch itself caches the prediction strategy until set_train_data / train())
+            _set_hyp_gp(self.model.model, cls, self.case["hyps"][op[1]], d, m)
+            self._new_phase(P)
+        elif op[0] == 7:
+            # a real `train()` whose optimiser step is "the optimum is at these hyper-parameters"
+            vg = _vg()
+            hyp = self.case["hyps"][op[1]]
+            saved = vg.fit_gpytorch_mll
+
+            def fake_fit(mll, *a, **kw):
+                _set_hyp_gp(mll.model, cls, hyp, d, m)
+                return mll
+            vg.fit_gpytorch_mll = fake_fit
+            try:
+                self.model.train()
+            finally:
+                vg.fit_gpytorch_mll = saved
+            self._new_phase(P)
 
 
 def _ops_str(ops):
@@ -543,7 +614,36 @@ def _check_pred(ctx, case, tag, cname, pred, lean_ans, T, m, tables, what=""):
     return True, mu, var
 
 
-def _check_lsvar(ctx, case, model, cname):
+def _check_getters(ctx, case, model, cname, P, reports):
+    """get_lengthscale_and_var, get_kernel_type and evaluate_kernel against the kernel modules' CURRENT state"""
+    cls, m = case["cls"], case["m"]
+    _check_lsvar(ctx, case, model, cname, reports)
+    try:
+        kt = model.get_kernel_type()
+        if kt != "RBF":
+            _viol(ctx, f"kernel-type:{cname}", f"get_kernel_type() = {kt!r} for the RBF kernel the wrapper builds", case)
+    except Exception as e:  # noqa: BLE001
+        _viol(ctx, f"getter-crash:{cname}:{core.exc_key(e)}", f"get_kernel_type raised {type(e).__name__}", case)
+    try:
+        Pt = np.asarray(P, dtype=float)
+        Xt = torch.tensor(Pt, dtype=torch.float64)
+        with torch.no_grad():
+            K = np.asarray(model.evaluate_kernel(Pt))
+            if cls == "mlist":
+                Ks = [g.covar_module(Xt, Xt).to_dense().numpy(force=True) for g in model.model.models]
+                n = len(Pt)
+                ref = np.stack(Ks)[:, :, None, :].repeat(m, axis=2).reshape(m * n, m * n)
+            else:
+                ref = model.model.covar_module(Xt, Xt).to_dense().numpy(force=True)
+        if K.shape != ref.shape or not np.array_equal(K, ref):
+            _viol(ctx, f"evaluate-kernel-stale:{cname}", "evaluate_kernel(X) differs from the kernel module evaluated now",
+                  case)
+    except Exception as e:  # noqa: BLE001
+        _viol(ctx, f"getter-crash:{cname}:{core.exc_key(e)}", f"evaluate_kernel raised {type(e).__name__}", case)
+    ctx.count("getter_queries")
+
+
+def _check_lsvar(ctx, case, model, cname, reports=None):
     cls, d, m = case["cls"], case["d"], case["m"]
     try:
         ls, var = model.get_lengthscale_and_var()
@@ -575,13 +675,21 @@ def _check_lsvar(ctx, case, model, cname):
         else:
             _viol(ctx, f"lsvar-shape:{cname}", f"variances have shape {var.shape}, expected ({m},)", case)
     elif not np.allclose(var, kv, rtol=1e-12, atol=0):
-        _viol(ctx, f"lsvar-values:{cname}", "reported variances differ from the kernel's", case,
-                      detail={"reported": var.tolist(), "kernel": kv.tolist()})
+        stale = any(v.shape == var.shape and np.array_equal(v, var) for _, v in (reports or []))
+        _viol(ctx, (f"lengthscale-report-stale:{cname}" if stale else f"lsvar-values:{cname}"),
+              "reported variances differ from the kernel's current ones"
+              + (" and repeat an earlier report (the hyper-parameters changed since)" if stale else ""), case,
+              detail={"reported": var.tolist(), "kernel": kv.tolist()})
     if cls != "corr" and (ls.ndim == 0 or ls.shape[0] != m):
         _viol(ctx, f"lsvar-shape:{cname}", f"lengthscales have shape {ls.shape}: not one entry per objective", case)
     elif np.squeeze(ls).shape != np.squeeze(kls).shape or not np.allclose(np.squeeze(ls), np.squeeze(kls), rtol=1e-12, atol=0):
-        _viol(ctx, f"lsvar-values:{cname}", "reported lengthscales differ from the kernel's", case,
-                      detail={"reported": ls.tolist(), "kernel": kls.tolist()})
+        stale = any(l.shape == ls.shape and np.array_equal(l, ls) for l, _ in (reports or []))
+        _viol(ctx, (f"lengthscale-report-stale:{cname}" if stale else f"lsvar-values:{cname}"),
+              "reported lengthscales differ from the kernel's current ones"
+              + (" and repeat an earlier report (the hyper-parameters changed since)" if stale else ""), case,
+              detail={"reported": ls.tolist(), "kernel": kls.tolist()})
+    if reports is not None:
+        reports.append((ls.copy(), var.copy()))
     ctx.count("lsvar_checked")
 
 
@@ -652,12 +760,18 @@ def run_case(ctx, case):
     return _run_direct(ctx, case)
 
 
+def _lean_ops(ops):
+    """the ops the Lean state machine knows (add / clear / update / predict); getter queries and changes of the
+    hyper-parameters (codes 5, 6, 7) concern the kernel only"""
+    return [op for op in ops if op[0] < 5]
+
+
 def _run_history(ctx, case, ops, tag):
     """real model + Lean on one history; returns (run, list of (T, lean answer), tables) or None on crash"""
     cls, m = case["cls"], case["m"]
     cname = CLASSES[cls]
     P, samples, xcol = case["P"], case["samples"], case.get("xcol", False)
-    run = _Run(case)
+    run = _Run(case, ctx)
     for i, op in enumerate(ops):
         try:
             run.apply(op, P, samples, xcol)
@@ -668,16 +782,24 @@ def _run_history(ctx, case, ops, tag):
             return None
     if run.model.model is None:
         return run, [], None
-    tables = _tables(run.model, cls, P, m)
-    consts = _consts(run.model, cls, m)
-    ans = _lean_hist(ctx, cls, case, m, case["noise"], consts, tables, None, samples, ops)
-    if ans.startswith("bad"):
-        raise RuntimeError("Lean driver rejected the history: " + ans)
-    answers = [] if ans == "_" else ans.split("#")
-    pred_ops = [op for op in ops if op[0] == 3]
-    if len(answers) != len(pred_ops) or len(run.preds) != len(pred_ops):
+    lops = _lean_ops(ops)
+    pred_ops = [op for op in lops if op[0] == 3]
+    if len(run.preds) != len(pred_ops) or len(run.pred_phase) != len(pred_ops):
         raise RuntimeError("prediction count mismatch")
-    return run, [(len(op) - 1, a) for op, a in zip(pred_ops, answers)], tables
+    # one exact evaluation of the history per kernel phase that has predictions: every prediction is compared
+    # with the posterior under the kernel as it was when predict() ran
+    per_phase = {}
+    for ph in sorted(set(run.pred_phase)):
+        tables, consts = run.phases[ph]
+        ans = _lean_hist(ctx, cls, case, m, case["noise"], consts, tables, None, samples, lops)
+        if ans.startswith("bad"):
+            raise RuntimeError("Lean driver rejected the history: " + ans)
+        answers = [] if ans == "_" else ans.split("#")
+        if len(answers) != len(pred_ops):
+            raise RuntimeError("prediction count mismatch")
+        per_phase[ph] = answers
+    out = [(len(op) - 1, per_phase[ph][k], run.phases[ph][0]) for k, (op, ph) in enumerate(zip(pred_ops, run.pred_phase))]
+    return run, out, (run.phases[-1][0] if len(run.phases) == 1 else None)
 
 
 def _run_direct(ctx, case):
@@ -691,15 +813,15 @@ def _run_direct(ctx, case):
     run, answers, tables = res
     compared, nontrivial = 0, False
     outs = []
-    for k, ((T, a), pred) in enumerate(zip(answers, run.preds)):
-        ok, mu, var = _check_pred(ctx, case, f"main#{k}", cname, pred, a, T, m, tables)
+    for k, ((T, a, tb), pred) in enumerate(zip(answers, run.preds)):
+        ok, mu, var = _check_pred(ctx, case, f"main#{k}", cname, pred, a, T, m, tb)
         outs.append((ok, mu, var))
         if ok:
             compared += 1
             ctx.count("predictions_compared")
             ctx.count("testpoints_%s" % ("1" if T == 1 else "many"))
     # state localisation (F): reported data vs Lean `held`, gpytorch data vs Lean `conditioned`
-    held, cond, ini, _ = _lean_state(ctx, case, ops)
+    held, cond, ini, _ = _lean_state(ctx, case, _lean_ops(ops))
     if any(len(c) > 0 for c in cond) and compared:
         nontrivial = True
     ctx.count("conditioned_size_%s" % _bucket(sum(len(c) for c in cond)))
@@ -713,7 +835,7 @@ def _run_direct(ctx, case):
         _viol(ctx, f"state-conditioned:{cname}", "the gpytorch model's train data differ from the model's `conditioned`",
                       case, kind="F")
     if run.model.model is not None:
-        _check_lsvar(ctx, case, run.model, cname)
+        _check_getters(ctx, case, run.model, cname, case["P"], run.reports)
     # variance never grows with more data (no clear between the predictions)
     if case.get("mono") and not any(op[0] == 1 for op in ops):
         prev = None
@@ -729,8 +851,8 @@ def _run_direct(ctx, case):
             ctx.count("monotone_pairs_checked")
     # Lean-internal: per-objective posterior = joint posterior for scalar noise (small cases)
     if cls == "indep" and not isinstance(case["noise"], list) and sum(len(c) for c in cond) * m <= 24 and tables is not None:
-        a1 = _lean_hist(ctx, "indep", case, m, case["noise"], [0.0] * m, tables, None, case["samples"], ops)
-        a2 = _lean_hist(ctx, "indepj", case, m, case["noise"], [0.0] * m, tables, None, case["samples"], ops)
+        a1 = _lean_hist(ctx, "indep", case, m, case["noise"], [0.0] * m, tables, None, case["samples"], _lean_ops(ops))
+        a2 = _lean_hist(ctx, "indepj", case, m, case["noise"], [0.0] * m, tables, None, case["samples"], _lean_ops(ops))
         strip = lambda s: "#".join("|".join(x.split("|")[:-1]) for x in s.split("#"))  # noqa: E731  (drop min pivots)
         if strip(a1) != strip(a2):
             _viol(ctx, "lean-indep-joint-vs-per-objective", "Lean: joint and per-objective exact posteriors differ",
@@ -741,13 +863,13 @@ def _run_direct(ctx, case):
         res2 = _run_history(ctx, case, case["alt_ops"], "alt")
         if res2 is not None:
             run2, answers2, tables2 = res2
-            for k, ((T, a), pred) in enumerate(zip(answers2, run2.preds)):
-                _check_pred(ctx, case, f"alt#{k}", cname, pred, a, T, m, tables2)
+            for k, ((T, a, tb), pred) in enumerate(zip(answers2, run2.preds)):
+                _check_pred(ctx, case, f"alt#{k}", cname, pred, a, T, m, tb)
             p1, p2 = run.preds[-1], run2.preds[-1]
             if p1[0] == "ok" and p2[0] == "ok":
                 mu1, var1, mu2, var2 = p1[1], p1[2], p2[1], p2[2]
                 if case["shape"] == "perm":
-                    _, c2, _, _ = _lean_state(ctx, case, case["alt_ops"])
+                    _, c2, _, _ = _lean_state(ctx, case, _lean_ops(case["alt_ops"]))
                     if sorted(map(sorted, cond)) == sorted(map(sorted, c2)):
                         if not (_close(mu1, mu2) and _close(var1, var2)):
                             _viol(ctx, f"order-dependence:{cname}",
@@ -866,6 +988,8 @@ def _run_helper(ctx, case):
     # (2) behaviour: predictions = exact posterior of the reported data
     tables = _tables(model, cls, P, m)
     consts = _consts(model, cls, m)
+    reports = []
+    _check_getters(ctx, case, model, cname, P, reports)      # first query, on the model as returned
     try:
         mu, var = model.predict(np.array(test, dtype=float))
         pred = ("ok", np.asarray(mu), np.asarray(var))
@@ -892,5 +1016,39 @@ def _run_helper(ctx, case):
     else:
         # up to date: the usual comparison (shape, mean, covariance) against the exact posterior
         _check_pred(ctx, case, "helper", cname, pred, spec, T, m, tables, what=f" (model returned by {hname})")
-    _check_lsvar(ctx, case, model, cname)
+        # the returned model is used further: other hyper-parameters (a real train() with the patched fit, or set
+        # on the kernel modules and update()), then every getter and predict() again — under the CURRENT kernel
+        if "hyp2" in case:
+            try:
+                if case.get("rechange", "train") == "train":
+                    def fake_fit2(mll, *a, **kw):
+                        _set_hyp_gp(mll.model, cls, case["hyp2"], d, m)
+                        return mll
+                    saved2 = vg.fit_gpytorch_mll
+                    vg.fit_gpytorch_mll = fake_fit2
+                    try:
+                        model.train()
+                    finally:
+                        vg.fit_gpytorch_mll = saved2
+                else:
+                    _set_hyp_gp(model.model, cls, case["hyp2"], d, m)
+                    model.update()
+            except Exception as e:  # noqa: BLE001
+                _viol(ctx, f"op-crash:{cname}:{core.exc_key(e)}", f"{cname}: train()/update() of a helper model raised "
+                      f"{type(e).__name__}: {str(e)[:160]}", case)
+                ctx.case_done(case, True)
+                return
+            tables2, consts2 = _tables(model, cls, P, m), _consts(model, cls, m)
+            _check_getters(ctx, case, model, cname, P, reports)
+            try:
+                mu, var = model.predict(np.array(test, dtype=float))
+                pred2 = ("ok", np.asarray(mu), np.asarray(var))
+            except Exception as e:  # noqa: BLE001
+                pred2 = ("exc", e, None)
+            spec2 = _lean_hist(ctx, cls, hcase, m, noise, consts2, tables2, None, samples, spec_ops + [[3] + tids])
+            if spec2.startswith("bad"):
+                raise RuntimeError("Lean driver rejected the helper history")
+            _check_pred(ctx, case, "helper2", cname, pred2, spec2, T, m, tables2,
+                        what=f" (model returned by {hname}, after its hyper-parameters changed)")
+            ctx.count("helper_requery")
     ctx.case_done(case, True)
